@@ -1418,6 +1418,7 @@ struct ssl
     unsigned char rsn[6];                       /* Last Record Sequence Number sent */
     unsigned char largestRsn[6];                /* Needed for resends of CCS flight */
     unsigned char lastRsn[6];                   /* Last RSN received (for replay detection) */
+    unsigned char rsnWindowEpoch[2];  /* Epoch the anti-replay window (lastRsn, dtlsBitmap) belongs to */
     unsigned long dtlsBitmap;                   /* Record replay helper */
     int32 parsedCCS;                            /* Set between CCS parse and FINISHED parse */
     int32 msn;                                  /* Current Message Sequence Number to send */
